@@ -20,13 +20,16 @@ BodyVerb(v) == v \in {"POST", "PUT", "PATCH"}
 Binary(ct) == ct \in {"proto", "octet"}
 
 \* call = [rpc : [name, verb, fields, pathVars, query : Seq([field, name, required])],
-\*         value : Seq([k, v]), zero : Seq([k, v]), ctype, resp (token), handler ("ok" | "plain")]
+\*         value : Seq([k, v]), zero : Seq([k, v]), ctype, resp (token), handler ("ok" | "plain"),
+\*         hdrs : Seq([k, v])]   -- header values the caller handed to the client through its options
+\*                                 (k = the header name the servers validate, lower-cased)
 Start(c) == /\ cpc \in {"idle", "returned"} /\ cpc' = "called" /\ call' = c /\ sentOK' = FALSE
 
 \* what the client must put on the wire (contract)
 SentMatches(c, s) ==
   /\ s.verb = c.rpc.verb
   /\ s.litsOK                                          \* literal segments of the template, in order
+  /\ \A h \in Range(c.hdrs) : Tok(s.hdrVals, h.k) = h.v  \* C08: option value under exactly that header name
   /\ \A f \in Range(c.rpc.pathVars) : Tok(s.pathVals, f) = Tok(c.value, f)
   /\ (BodyVerb(c.rpc.verb) => /\ s.hasBody
                               /\ s.bodyDecodes
